@@ -607,29 +607,90 @@ Proof.
   rewrite firstn_all2 by exact H. reflexivity.
 Qed.
 
-(* a first segment that carries at least the 12 tested bytes is accepted *)
-Theorem ws_upgrade_on_domain : forall seg1, has_prefix seg1 ws_101 = true -> ws_upgraded seg1 = true.
+Lemma ws_101_len : length ws_101 = 12%nat.
+Proof. reflexivity. Qed.
+
+(* the accumulating handshake read (io.ReadAtLeast(out, b, 12), since 9c9f13b) *)
+Lemma ws_read_loop_total : forall fuel acc src,
+  (12 - length acc <= fuel)%nat -> (12 <= length (acc ++ concat src))%nat ->
+  exists chunk rest, ws_read_loop fuel acc src = Ok (Some (chunk, rest)) /\
+    chunk ++ concat rest = acc ++ concat src /\ (12 <= length chunk)%nat.
 Proof.
-  intros seg1 H. apply has_prefix_spec in H. destruct H as [r ->].
-  unfold ws_upgraded, ws_first_chunk. apply has_prefix_spec.
-  apply firstn_app_exact. vm_compute. lia.
+  induction fuel as [|f IH]; intros acc src Hf Ht; cbn [ws_read_loop];
+    (destruct (12 <=? length acc)%nat eqn:C;
+     [apply Nat.leb_le in C; exists acc, src; split; [reflexivity | split; [reflexivity | exact C]]
+     | apply Nat.leb_gt in C]); [lia|].
+  destruct (src_read (1024 - length acc) src) as [[d s'] e] eqn:E.
+  assert (Hm : (0 < 1024 - length acc)%nat) by lia.
+  destruct e.
+  - apply src_read_eof in E. destruct E as [_ Hc]. rewrite Hc, app_nil_r in Ht. lia.
+  - pose proof (src_read_conserves _ _ _ _ _ E) as Hc.
+    destruct (src_read_progress _ _ _ _ Hm E) as [Hd _].
+    destruct (IH (acc ++ d) s') as [chunk [rest [H1 [H2 H3]]]].
+    + rewrite app_length. destruct d; [contradiction | cbn [length]; lia].
+    + rewrite <- app_assoc, Hc. exact Ht.
+    + exists chunk, rest. split; [exact H1|]. split; [|exact H3]. rewrite H2, <- app_assoc, Hc. reflexivity.
+Qed.
+
+Lemma ws_read_loop_fuel : forall fuel acc src,
+  (12 - length acc <= fuel)%nat -> ws_read_loop fuel acc src <> Err 77%N.
+Proof.
+  induction fuel as [|f IH]; intros acc src Hf; cbn [ws_read_loop];
+    destruct (12 <=? length acc)%nat eqn:C; try discriminate; apply Nat.leb_gt in C; [lia|].
+  destruct (src_read (1024 - length acc) src) as [[d s'] e] eqn:E.
+  destruct e; [discriminate|].
+  assert (Hm : (0 < 1024 - length acc)%nat) by lia.
+  destruct (src_read_progress _ _ _ _ Hm E) as [Hd _].
+  apply IH. rewrite app_length. destruct d; [contradiction | cbn [length]; lia].
+Qed.
+
+Theorem ws_read_first_never_out_of_fuel : forall useg, ws_read_first useg <> Err 77%N.
+Proof. intros useg. apply ws_read_loop_fuel. cbn [length]. lia. Qed.
+
+Lemma long_prefix_has_prefix : forall (p c r1 r2 : str),
+  c ++ r1 = p ++ r2 -> (length p <= length c)%nat -> has_prefix c p = true.
+Proof.
+  induction p as [|y p IH]; intros c r1 r2 H L; [reflexivity|].
+  destruct c as [|x c]; [cbn [length] in L; lia|].
+  cbn [app] in H. inversion H; subst. cbn [has_prefix]. rewrite N.eqb_refl. cbn [andb].
+  eapply IH; [eassumption | cbn [length] in L; lia].
+Qed.
+
+(* unconditional in the segmentation: however an upstream reply that starts with
+   "HTTP/1.1 101" is cut into segments, the handshake read succeeds, the chunk it forwards
+   passes the prefix test, and chunk ++ what the relay then copies is the reply unmodified *)
+Theorem ws_upgrade_any_segmentation : forall useg, has_prefix (concat useg) ws_101 = true ->
+  exists chunk rest, ws_read_first useg = Ok (Some (chunk, rest)) /\
+    has_prefix chunk ws_101 = true /\ chunk ++ concat rest = concat useg.
+Proof.
+  intros useg H. apply has_prefix_spec in H. destruct H as [r Hr].
+  destruct (ws_read_loop_total 12 [] useg) as [chunk [rest [H1 [H2 H3]]]].
+  - cbn [length]. lia.
+  - cbn [app]. rewrite Hr, app_length, ws_101_len. lia.
+  - exists chunk, rest. cbn [app] in H2. split; [exact H1|]. split; [|exact H2].
+    apply (long_prefix_has_prefix ws_101 chunk (concat rest) r); [now rewrite H2 | rewrite ws_101_len; exact H3].
 Qed.
 
 Definition wit_reply : str := bs "HTTP/1.1 101 Switching Protocols
 "%string.
 
-(* the same reply arriving as "HTTP/1.1 1" + rest: the client receives the first 10 bytes
-   and nothing else, the upstream nothing *)
+(* F-C09-3 as it was before fix commit 9c9f13b: the reply arriving as "HTTP/1.1 1" + rest failed
+   the single-read prefix test (the client got the 10 bytes, the tunnel was closed); the current
+   model accumulates, the upgrade succeeds and every byte is relayed in both directions *)
 Theorem ws_split_101_refuted :
-  exists e, has_prefix wit_reply ws_101 = true /\ region_ws_split KWs wit_reply 10 = true /\
-    scenario_expect KWs false [] [[1; 2]%N] 0 false CStay UAtConnect wit_reply 10 (nlen' wit_reply) UStay = Ok e /\
-    e_cl e = firstn 10 wit_reply /\ e_cl_hi e = 10%N /\ e_up e = [] /\
-    spec_b KWs false [] [1; 2]%N false CStay UAtConnect wit_reply UStay (e_up e) (e_cl e) = false.
-Proof. eexists. repeat split; vm_compute; reflexivity. Qed.
+  has_prefix wit_reply ws_101 = true /\
+  ws_first_chunk_unrepaired (firstn 10 wit_reply) = firstn 10 wit_reply /\
+  ws_upgraded_unrepaired (firstn 10 wit_reply) = false /\
+  exists e, scenario_expect KWs false [] [[1; 2]%N] 0 false CStay UAtConnect wit_reply 10 (nlen' wit_reply) UStay = Ok e /\
+    e_cl e = wit_reply /\ e_cl_lo e = nlen' wit_reply /\ e_up e = [1; 2]%N /\ e_up_lo e = 2%N /\
+    spec_b KWs false [] [1; 2]%N false CStay UAtConnect wit_reply UStay (e_up e) (e_cl e) = true.
+Proof. repeat split; try (vm_compute; reflexivity). eexists. repeat split; vm_compute; reflexivity. Qed.
 
-Example ws_unsplit_accepted :
-  exists e, scenario_expect KWs false [] [[1; 2]%N] 0 false CStay UAtConnect wit_reply 0 (nlen' wit_reply) UStay = Ok e /\
-    e_cl e = wit_reply /\ e_cl_lo e = nlen' wit_reply /\ e_up e = [1; 2]%N /\ e_up_lo e = 2%N.
+(* an upstream that ends before 12 bytes have arrived: "error reading handshake", the client
+   receives nothing (not even the partial bytes) *)
+Example ws_short_reply_nothing_forwarded :
+  exists e, scenario_expect KWs false [] [[1; 2]%N] 0 false CStay UAtConnect (firstn 10 wit_reply) 4 10 UClose = Ok e /\
+    e_cl e = [] /\ e_cl_hi e = 0%N /\ e_up e = [].
 Proof. eexists. repeat split; vm_compute; reflexivity. Qed.
 
 (* ================= the scripted scenarios: outside the finding regions the model's forced
@@ -975,9 +1036,6 @@ Proof.
     unfold nlen' in *. lia.
 Qed.
 
-Lemma ws_101_len : length ws_101 = 12%nat.
-Proof. reflexivity. Qed.
-
 Lemma has_prefix_firstn s p n : has_prefix s p = true -> (length p <= n)%nat -> has_prefix (firstn n s) p = true.
 Proof.
   intros H L. apply has_prefix_spec in H. destruct H as [r ->]. apply has_prefix_spec.
@@ -1000,11 +1058,10 @@ Proof.
 Qed.
 
 (* THE LINK: for all scenarios (proxy kind, PROXY option, segmentation, close order, trigger),
-   outside the open finding regions (F-C09-2 half-close, F-C09-3 split 101) and the close-with-unread-reply race, every observation within the model's
+   outside the open finding region (F-C09-2 half-close) and the close-with-unread-reply race, every observation within the model's
    forced outcome satisfies spec_b: the tripwire verdict 4 cannot arise from the model side *)
 Theorem scenario_meets_spec : forall k pp line segs fin cwait ce ut reply rseg1 whead ue e o_up o_cl,
   scenario_expect k pp line segs fin cwait ce ut reply rseg1 whead ue = Ok e ->
-  region_ws_split k reply rseg1 = false ->
   region_half_close cwait ce = false ->
   race_close_unread_reply (spec_upstream k pp line (concat segs)) cwait ce ut = false ->
   ws_head_first k ut whead = true ->
@@ -1012,7 +1069,7 @@ Theorem scenario_meets_spec : forall k pp line segs fin cwait ce ut reply rseg1 
   within o_cl (e_cl e) (e_cl_lo e) (e_cl_hi e) = true ->
   spec_b k pp line (concat segs) cwait ce ut reply ue o_up o_cl = true.
 Proof.
-  intros k pp line segs fin cwait ce ut reply rseg1 whead ue e o_up o_cl He Rw Rh Rr Hw Hup Hcl.
+  intros k pp line segs fin cwait ce ut reply rseg1 whead ue e o_up o_cl He Rh Rr Hw Hup Hcl.
   destruct (within_parts _ _ _ _ Hcl) as [Hclp Hcll].
   unfold spec_b.
   destruct k.
@@ -1035,15 +1092,14 @@ Proof.
     { subst out0. cbn [ws_head_first] in Hw.
       destruct ut; [exact P | | ]; apply has_prefix_firstn; try exact P;
         apply N.leb_le in Hw; rewrite ws_101_len; lia. }
-    set (seg1 := if ((0 <? rseg1)%N && (rseg1 <? nlen' out0)%N)%bool then firstn (N.to_nat rseg1) out0 else out0) in He.
-    assert (P1 : ws_upgraded seg1 = true).
-    { apply ws_upgrade_on_domain. subst seg1.
-      destruct ((0 <? rseg1)%N && (rseg1 <? nlen' out0)%N)%bool eqn:C; [|exact P0].
-      apply has_prefix_firstn; [exact P0|].
-      cbn [region_ws_split] in Rw. rewrite P in Rw. cbn [andb] in Rw.
-      apply andb_true_iff in C. destruct C as [C _]. rewrite C in Rw. cbn [andb] in Rw.
-      apply N.ltb_ge in Rw. rewrite ws_101_len. lia. }
-    rewrite P1 in He. rewrite copy_preserves_stream in He. cbn [bind] in He.
+    set (useg := if ((0 <? rseg1)%N && (rseg1 <? nlen' out0)%N)%bool
+                 then [firstn (N.to_nat rseg1) out0; skipn (N.to_nat rseg1) out0] else [out0]) in He.
+    assert (Hu : concat useg = out0).
+    { subst useg. destruct ((0 <? rseg1)%N && (rseg1 <? nlen' out0)%N)%bool; cbn [concat]; rewrite app_nil_r;
+        [apply firstn_skipn | reflexivity]. }
+    destruct (ws_upgrade_any_segmentation useg) as [chunk [rest [R1 [R2 _]]]]; [rewrite Hu; exact P0|].
+    rewrite R1 in He. cbn [bind] in He. rewrite R2 in He.
+    rewrite copy_preserves_stream in He. cbn [bind] in He.
     inversion He; subst e. clear He. cbn [e_up e_up_lo e_cl e_cl_lo e_cl_hi] in *.
     cbn [spec_upstream] in *. apply tunnel_expect_meets_spec; try assumption.
     eapply N.le_trans; [apply N.le_max_r | exact Hcll].
